@@ -1,13 +1,431 @@
-//! C04 — stub (not built yet; not registered in MANIFEST.json).
-use super::*;
+//! C04 — re-saving is stable: no drift, no loss of untouched content.
+use super::Prop;
+use crate::dump::*;
+use crate::engine::*;
+use crate::gen::wb::*;
+use crate::props::c01::{load, save};
+use proptest::prelude::*;
+use serde::{Deserialize, Serialize};
+use serde_json::{json, Value};
+use std::collections::BTreeMap;
+use std::io::Read;
+use umya_spreadsheet::Spreadsheet;
 
 pub fn prop() -> Prop {
     Prop {
         id: "C04",
-        describe: |_| {},
-        subs: no_subs,
-        extra: no_extra,
-        replay_extra: no_replay_extra,
-        watchdog_s: (900, 7200),
+        describe,
+        subs,
+        extra,
+        replay_extra,
+        watchdog_s: (1800, 14400),
     }
 }
+
+fn describe(ctx: &Ctx) {
+    ctx.rule("sources: every readable file of /repo/tests/test_files (x generated single-cell edits) and generated workbooks (cells of all kinds, formulas); chain orig -> L0 -> save -> L1 -> save -> L2 -> save -> L3 in memory; oracles: (i) dump(L1)==dump(L2)==dump(L3) on the full public-getter dump, (ii) dump(L0)==dump(L1) on the same dump, (iii) a single-cell edit changes exactly that cell (plus the row/column entry the API creates for a new cell), (iv) saving the same workbook twice gives the same part names and the same reloaded content. Non-trivial = source has a formula, hyperlink, non-default style, or text needing XML escaping; distinct by (source, edit)");
+    ctx.assume("dump = Debug rendering of what public getters return, keyed by sheet/cell/row/column/part; cells that show nothing (no value, no formula, default style, no hyperlink) are dropped (declared normalisation)");
+    ctx.assume("the style table (xf numbering), shared-string indexes and relationship ids are not part of the dump: renumbering is a declared normalisation");
+}
+
+pub fn corpus_dir() -> String {
+    std::env::var("VERIF_CORPUS").unwrap_or_else(|_| "/repo/tests/test_files".to_string())
+}
+
+pub fn corpus_files() -> Vec<String> {
+    let mut v: Vec<String> = std::fs::read_dir(corpus_dir())
+        .map(|rd| {
+            rd.flatten()
+                .map(|e| e.file_name().to_string_lossy().to_string())
+                .filter(|n| (n.ends_with(".xlsx") || n.ends_with(".xlsm")) && n != "aaa_large_string.xlsx")
+                .collect()
+        })
+        .unwrap_or_default();
+    v.sort();
+    v
+}
+
+pub fn part_names(bytes: &[u8]) -> Result<Vec<String>, String> {
+    let mut z = zip::ZipArchive::new(std::io::Cursor::new(bytes)).map_err(|e| format!("{:?}", e))?;
+    let mut v = Vec::new();
+    for i in 0..z.len() {
+        let f = z.by_index(i).map_err(|e| format!("{:?}", e))?;
+        if !f.name().ends_with('/') {
+            v.push(f.name().to_string());
+        }
+    }
+    v.sort();
+    Ok(v)
+}
+
+pub fn parts(bytes: &[u8]) -> Result<BTreeMap<String, Vec<u8>>, String> {
+    let mut z = zip::ZipArchive::new(std::io::Cursor::new(bytes)).map_err(|e| format!("{:?}", e))?;
+    let mut m = BTreeMap::new();
+    for i in 0..z.len() {
+        let mut f = z.by_index(i).map_err(|e| format!("{:?}", e))?;
+        if f.name().ends_with('/') {
+            continue;
+        }
+        let mut b = Vec::new();
+        f.read_to_end(&mut b).map_err(|e| format!("{:?}", e))?;
+        m.insert(f.name().to_string(), b);
+    }
+    Ok(m)
+}
+
+#[derive(Debug, Clone, Serialize, Deserialize)]
+pub struct Edit {
+    pub sheet_raw: u16,
+    /// pick an existing cell (by raw index) or a new position
+    pub existing_raw: Option<u16>,
+    pub col: u32,
+    pub row: u32,
+    pub value: ValueSpec,
+}
+
+#[derive(Debug, Clone, Serialize, Deserialize)]
+pub enum Source {
+    Corpus(String),
+    Generated(WbSpec),
+}
+
+#[derive(Debug, Clone, Serialize, Deserialize)]
+pub struct Case {
+    pub source: Source,
+    pub edit: Option<Edit>,
+    pub light: bool,
+}
+
+fn edit_strategy() -> BoxedStrategy<Edit> {
+    (
+        any::<u16>(),
+        prop::option::weighted(0.5, any::<u16>()),
+        1u32..=30,
+        1u32..=60,
+        prop_oneof![
+            3 => crate::gen::text::plain_text(20).prop_map(|s| ValueSpec::Text(if s.is_empty() { "edited".into() } else { s })),
+            2 => finite_f64().prop_map(|f| ValueSpec::Number(Num(f))),
+            1 => any::<bool>().prop_map(ValueSpec::Bool),
+        ],
+    )
+        .prop_map(|(sheet_raw, existing_raw, col, row, value)| Edit {
+            sheet_raw,
+            existing_raw,
+            col,
+            row,
+            value,
+        })
+        .boxed()
+}
+
+fn gen_strategy(t: Tier) -> BoxedStrategy<Case> {
+    let (cells, text) = t.pick((25, 30), (60, 120));
+    (wb_spec(3, cells, text), prop::option::weighted(0.7, edit_strategy()), any::<bool>())
+        .prop_map(|(wb, edit, light)| Case {
+            source: Source::Generated(wb),
+            edit,
+            light,
+        })
+        .boxed()
+}
+
+/// Files whose chain of five saves and loads takes tens of seconds: in the quick tier they
+/// run once (standard writer, no edit); the thorough tier treats them like all others.
+pub const HEAVY: [&str; 4] = ["issue_216.xlsx", "issue_233.xlsx", "issue_188_3.xlsx", "aaa_large.xlsx"];
+
+fn corpus_strategy(t: Tier) -> BoxedStrategy<Case> {
+    let mut files = corpus_files();
+    if t == Tier::Quick {
+        files.retain(|f| !HEAVY.contains(&f.as_str()));
+    }
+    (prop::sample::select(files), edit_strategy(), any::<bool>())
+        .prop_map(|(f, edit, light)| Case {
+            source: Source::Corpus(f),
+            edit: Some(edit),
+            light,
+        })
+        .boxed()
+}
+
+fn g<R>(what: &str, f: impl FnOnce() -> Result<R, String>) -> Result<R, Verdict> {
+    match guard(f) {
+        Ok(Ok(r)) => Ok(r),
+        Ok(Err(e)) => Err(Verdict::fail(format!("{}/error", what), e)),
+        Err(p) => Err(Verdict::fail(format!("{}/panic:{}", what, p.site()), p.short())),
+    }
+}
+
+fn loc_class(loc: &str) -> String {
+    // "sheet[0]/cell/(3, 4)" -> "cell"; "sheet[1]/part/"comments"" -> "part:comments"; "book/"theme"" -> "book:theme"
+    let parts: Vec<&str> = loc.split('/').collect();
+    let strip = |s: &str| s.trim_matches('"').to_string();
+    if parts[0] == "book" {
+        return format!("book:{}", strip(parts.get(1).unwrap_or(&"")));
+    }
+    match parts.get(1) {
+        Some(&"part") => format!("part:{}", strip(parts.get(2).unwrap_or(&""))),
+        Some(k) => k.to_string(),
+        None => parts[0].to_string(),
+    }
+}
+
+fn source_nontrivial(d: &BookDump) -> bool {
+    d.sheets.iter().any(|s| {
+        s.cells.values().any(|c| {
+            !c.contains("formula=None") || !c.contains("hyperlink=None") || c.contains('&') || c.contains('<') || c.contains("font: Some") || c.contains("fill: Some")
+        })
+    })
+}
+
+pub fn check_case(case: &Case, obs: &mut Obs) -> Verdict {
+    let light = case.light;
+    let l0 = match &case.source {
+        Source::Corpus(name) => {
+            obs.class(format!("corpus:{}", name));
+            let bytes = match std::fs::read(format!("{}/{}", corpus_dir(), name)) {
+                Ok(b) => b,
+                Err(e) => return Verdict::Discard(format!("cannot read corpus file {}: {}", name, e)),
+            };
+            match g("load-orig", || load(&bytes)) {
+                Ok(b) => b,
+                // an unreadable corpus file is outside "readable xlsx file"
+                Err(_) => return Verdict::Discard(format!("corpus file {} not readable", name)),
+            }
+        }
+        Source::Generated(spec) => {
+            obs.class("generated");
+            match guard(|| build(spec)) {
+                Ok(b) => b,
+                Err(p) => return Verdict::fail(format!("build/panic:{}", p.site()), p.short()),
+            }
+        }
+    };
+    let src = match &case.source {
+        Source::Corpus(_) => "corpus",
+        Source::Generated(_) => "generated",
+    };
+    let d0 = dump_book(&l0);
+    obs.nontrivial(source_nontrivial(&d0));
+    let b1 = match g("save1", || save(&l0, light)) {
+        Ok(b) => b,
+        Err(v) => return v,
+    };
+    let l1 = match g("load1", || load(&b1)) {
+        Ok(b) => b,
+        Err(v) => return v,
+    };
+    let d1 = dump_book(&l1);
+    // (ii) orig ~ gen1 (for generated workbooks L0 is the built model itself)
+    if let Some((loc, a, b)) = diff_books(&sem_book(&l0), &sem_book(&l1)) {
+        return Verdict::fail(
+            format!("{}/gen0-vs-gen1/{}", src, loc_class(&loc)),
+            format!("{}: original vs one re-save: {}", loc, focus_diff(&a, &b)),
+        );
+    }
+    // (i) fixed point
+    let b2 = match g("save2", || save(&l1, light)) {
+        Ok(b) => b,
+        Err(v) => return v,
+    };
+    let l2 = match g("load2", || load(&b2)) {
+        Ok(b) => b,
+        Err(v) => return v,
+    };
+    let d2 = dump_book(&l2);
+    if let Some((loc, a, b)) = diff_books(&d1, &d2) {
+        return Verdict::fail(
+            format!("{}/gen1-vs-gen2/{}", src, loc_class(&loc)),
+            format!("{}: gen1 vs gen2: {}", loc, focus_diff(&a, &b)),
+        );
+    }
+    let b3 = match g("save3", || save(&l2, light)) {
+        Ok(b) => b,
+        Err(v) => return v,
+    };
+    let l3 = match g("load3", || load(&b3)) {
+        Ok(b) => b,
+        Err(v) => return v,
+    };
+    let d3 = dump_book(&l3);
+    if let Some((loc, a, b)) = diff_books(&d2, &d3) {
+        return Verdict::fail(
+            format!("{}/gen2-vs-gen3/{}", src, loc_class(&loc)),
+            format!("{}: gen2 vs gen3: {}", loc, focus_diff(&a, &b)),
+        );
+    }
+    match (part_names(&b2), part_names(&b3)) {
+        (Ok(n2), Ok(n3)) => {
+            if n2 != n3 {
+                return Verdict::fail(format!("{}/part-names-drift", src), format!("gen2 parts {:?} | gen3 parts {:?}", n2, n3));
+            }
+        }
+        (Err(e), _) | (_, Err(e)) => return Verdict::fail(format!("{}/zip-unreadable", src), e),
+    }
+    // (iv) saving the same unchanged workbook twice
+    let b1b = match g("save1-again", || save(&l0, light)) {
+        Ok(b) => b,
+        Err(v) => return v,
+    };
+    match (part_names(&b1), part_names(&b1b)) {
+        (Ok(a), Ok(b)) => {
+            if a != b {
+                return Verdict::fail(format!("{}/two-saves/part-names", src), format!("first {:?} | second {:?}", a, b));
+            }
+        }
+        (Err(e), _) | (_, Err(e)) => return Verdict::fail(format!("{}/zip-unreadable", src), e),
+    }
+    let l1b = match g("load1-again", || load(&b1b)) {
+        Ok(b) => b,
+        Err(v) => return v,
+    };
+    if let Some((loc, a, b)) = diff_books(&d1, &dump_book(&l1b)) {
+        return Verdict::fail(
+            format!("{}/two-saves/{}", src, loc_class(&loc)),
+            format!("{}: first vs second save: {}", loc, focus_diff(&a, &b)),
+        );
+    }
+    // (iii) single-cell edit
+    if let Some(e) = &case.edit {
+        let mut le = l0;
+        let n = le.get_sheet_count();
+        if n == 0 {
+            return Verdict::Pass;
+        }
+        let si = pick_idx(e.sheet_raw, n);
+        let (col, row, is_new) = {
+            let ws = le.get_sheet(&si).unwrap();
+            let mut existing: Vec<(u32, u32)> = d0.sheets[si].cells.keys().cloned().collect();
+            existing.sort();
+            let _ = ws;
+            match e.existing_raw {
+                Some(r) if !existing.is_empty() => {
+                    let (row, col) = existing[pick_idx(r, existing.len())];
+                    (col, row, false)
+                }
+                _ => {
+                    let is_new = !d0.sheets[si].cells.contains_key(&(e.row, e.col));
+                    (e.col, e.row, is_new)
+                }
+            }
+        };
+        obs.class(if is_new { "edit:new-cell" } else { "edit:existing-cell" });
+        if let Err(p) = guard(|| {
+            let ws = le.get_sheet_mut(&si).unwrap();
+            let cell = ws.get_cell_mut((col, row));
+            apply_value(cell, &e.value);
+        }) {
+            return Verdict::fail(format!("edit/panic:{}", p.site()), p.short());
+        }
+        let be = match g("save-edited", || save(&le, light)) {
+            Ok(b) => b,
+            Err(v) => return v,
+        };
+        let lr = match g("load-edited", || load(&be)) {
+            Ok(b) => b,
+            Err(v) => return v,
+        };
+        let dr = dump_book(&lr);
+        let detailed = all_diffs_detailed(&d1, &dr, 12);
+        let diffs: Vec<String> = detailed.iter().map(|d| d.0.clone()).collect();
+        let cell_loc = format!("sheet[{}]/cell/{:?}", si, (row, col));
+        let row_loc = format!("sheet[{}]/row/{:?}", si, row);
+        let col_loc = format!("sheet[{}]/col/{:?}", si, col);
+        let dims_loc = format!("sheet[{}]/part/\"sheet_format_properties\"", si);
+        for dloc in &diffs {
+            // get_cell_mut documents that it creates the row and the column entry of the cell
+            // it returns when they do not exist yet (also for a cell that already exists in
+            // a loaded file without such entries)
+            let allowed = dloc == &cell_loc || dloc == &row_loc || dloc == &col_loc || dloc == &dims_loc;
+            if !allowed {
+                return Verdict::fail(
+                    format!("{}/edit-not-local/{}", src, loc_class(dloc)),
+                    format!(
+                        "edit of {} changed {} as well: {} (all differences: {:?})",
+                        cell_loc,
+                        dloc,
+                        detailed.iter().find(|d| &d.0 == dloc).map(|d| d.1.clone()).unwrap_or_default(),
+                        diffs
+                    ),
+                );
+            }
+        }
+        // the edit itself must be present
+        let got = lr.get_sheet(&si).and_then(|ws| ws.get_cell((col, row)).map(|c| c.get_value().to_string()));
+        let want = e.value.text();
+        if got.as_deref().unwrap_or("") != want {
+            return Verdict::fail(format!("{}/edit-lost", src), format!("{} should show {:?}, shows {:?}", cell_loc, want, got));
+        }
+    }
+    Verdict::Pass
+}
+
+fn extra(ctx: &Ctx) {
+    // every corpus file once without an edit, deterministic order
+    use rayon::prelude::*;
+    let files = corpus_files();
+    ctx.add_class("corpus-files", files.len() as u64);
+    let results: Vec<(Case, Verdict, bool)> = files
+        .par_iter()
+        .flat_map(|f| {
+            let variants: Vec<bool> = if ctx.tier == Tier::Quick && HEAVY.contains(&f.as_str()) { vec![false] } else { vec![false, true] };
+            variants
+                .into_iter()
+                .map(|light| {
+                    let case = Case {
+                        source: Source::Corpus(f.clone()),
+                        edit: None,
+                        light,
+                    };
+                    let mut obs = Obs::default();
+                    let t0 = std::time::Instant::now();
+                    let v = match guard(|| check_case(&case, &mut obs)) {
+                        Ok(v) => v,
+                        Err(p) => Verdict::fail(format!("harness-panic:{}", p.site()), p.short()),
+                    };
+                    if std::env::var("VERIF_TIMING").is_ok() {
+                        eprintln!("timing {} light={} {:.2}s", f, light, t0.elapsed().as_secs_f64());
+                    }
+                    (case, v, obs.nontrivial)
+                })
+                .collect::<Vec<_>>()
+        })
+        .collect();
+    for (case, v, nt) in results {
+        ctx.count_case(fnv(serde_json::to_string(&case).unwrap().as_bytes()), nt);
+        if nt {
+            ctx.add_sample(json!({"sub":"corpus-plain","case":case}));
+        }
+        ctx.judge("corpus-plain", &case, v);
+    }
+}
+
+fn replay_extra(_ctx: &Ctx, sub: &str, case: &Value) -> Option<Verdict> {
+    if sub == "corpus-plain" {
+        let c: Case = serde_json::from_value(case.clone()).ok()?;
+        let mut obs = Obs::default();
+        return Some(check_case(&c, &mut obs));
+    }
+    None
+}
+
+fn subs() -> Vec<Box<dyn DynSub>> {
+    vec![
+        Box::new(Sub {
+            name: "corpus-edit",
+            strategy: corpus_strategy,
+            cases: (4, 200),
+            check: check_case,
+            max_shrink_iters: 300,
+        }),
+        Box::new(Sub {
+            name: "generated",
+            strategy: gen_strategy,
+            cases: (60, 3000),
+            check: check_case,
+            max_shrink_iters: 3000,
+        }),
+    ]
+}
+
+#[allow(dead_code)]
+fn _unused(_: &Spreadsheet) {}
